@@ -1,8 +1,8 @@
 (* C12 - help requests are answered by the library in full and never reach the handler. Statements only.
    Routing is Model/Args.v (HelpRequest::from_command); the help text is Model/Derive.v (the code derive(Help) emits); as for C09 the
    tie between the proc-macro and the model is established on the declarations generated and compiled each run. *)
-From EC Require Import Base Generated.Codes Model.Args Model.Writer Model.Cli Model.Derive Spec.ArgSpec Spec.Framing Spec.Session
-  Proofs.ArgsProofs Proofs.DeriveProofs Proofs.HelpProofs.
+From EC Require Import Base Generated.Codes Model.Args Model.Writer Model.Cli Model.Derive Model.Doc Spec.ArgSpec Spec.Framing Spec.Session
+  Proofs.ArgsProofs Proofs.DeriveProofs Proofs.HelpProofs Proofs.DocProofs.
 
 (* routing: `help` alone lists everything; `help <value> ...` asks about that command with the remaining tokens; any other command
    is a help request iff one of its classified arguments (hence before any `--`, also inside a cluster) is --help or -h *)
@@ -102,6 +102,22 @@ Theorem C12_group_listing : forall ms,
   forall m, In m ms -> listed m = true -> Infix (hops_bytes (list_commands_hops (snd m))) (hops_bytes (list_commands_set (SGroup ms))).
 Proof. intros ms. split; [apply help_list_group_blocks|intros m; apply help_list_group_member]. Qed.
 Print Assumptions C12_group_listing.
+
+(* summaries and descriptions come from the doc comments through Model/Doc.v (the model of command/doc.rs; it is what the driver
+   evaluates on the declarations of every run): no doc comment - no summary; the summary loses exactly one trailing period, an ellipsis
+   stays; examples: several paragraphs separated by several blank lines, leading and trailing blank lines, one attribute with line feeds *)
+Theorem C12_summary_period : forall s,
+  (forall r, s = r ++ [46; 46] -> remove_period s = s) /\
+  (forall r, s = r ++ [46] -> (forall r', r <> r' ++ [46]) -> remove_period s = r) /\
+  ((forall r, s <> r ++ [46]) -> remove_period s = s).
+Proof. exact remove_period_spec. Qed.
+Print Assumptions C12_summary_period.
+Example C12_doc_examples :
+  doc_help [] = (None, None) /\
+  doc_help [[32;65;46]] = (Some [65], Some [65;46]) /\
+  doc_help [[]; [32;65]; []; []; [32;66;46;46]; [32]] = (Some [65], Some [65;13;10;13;10;66;46;46]) /\
+  doc_help [[32;65;10;32;98;10;10;32;67;46]] = (Some [65;32;98], Some [65;32;98;13;10;13;10;67;46]).
+Proof. repeat split; vm_compute; reflexivity. Qed.
 
 Example C12_nonvacuous :
   let sub := Cmd [103] (Some [71]) (Some [71]) [] None in
